@@ -205,7 +205,9 @@ pub(super) mod udp {
                 match self.codec.decode(src)? {
                     Some((content, addr, session)) => {
                         if self.filter.as_mut().is_some_and(|filter| !filter.validate_packet_id(session.packet_id, u64::MAX)) {
-                            bail!("[udp] packet_id out of window; session={}", session)
+                            // a replayed or stale reply is dropped; the session goes on
+                            log::warn!("[udp] packet_id out of window; session={}", session);
+                            return Ok(None);
                         }
                         self.session.server_session_id = session.server_session_id;
                         Ok(Some((content, addr)))
